@@ -8,6 +8,11 @@ RULE = ("harness c07: dft/idft round trip with (step, offset), dft add/sub/copy/
 ASSUMPTIONS = ["inputs generated inside the documented magnitude domain (FFT64: accumulated products below 2^50)",
                "the f64 FFT butterflies and the NTT butterfly network are not proved: their exactness enters through the bit-exact correspondence"]
 def classify(record):
+    # add_bbb_ref::<Primes31>: Q[k] << 33 is just below 2^64, the u64 sum of two reduced operands wraps
+    # (theorem C07_add_bbb_primes31_refuted); not reachable through a backend (Primes30 is hard-wired)
+    f = record.split("#")
+    if f[0] == "7106" and len(f) > 1 and f[1].split()[1:2] == ["1f"]:
+        return "ntt120.add_bbb.primes31_wrap"
     return None
 
 def translate(ctx):
